@@ -168,11 +168,20 @@ def program_start(ctx):
             abad = abad or "%d RSP writes" % len(rsp)
             continue
         aligned = False
+        rbits = A.bitvec(rsp[0][3], A.Path())[:4]
         for c in o.path.conds:
             t = c[0]
-            if t[0] == "bin" and t[1] == "Eq" and A.is_int(t[3]) and t[3][1] == 0 and ((c[2] == 1) if c[1] == "==" else True):
+            if t[0] == "bin" and t[1] in ("Eq", "Ne") and A.is_int(t[3]) and t[3][1] == 0:
+                truth_eq = ((c[2] == 1) if c[1] == "==" else (0 in c[2])) == (t[1] == "Eq")
+                # any spelling of `value mod 16 == 0` (mask, remainder, ...): the tested term's bits are exactly the
+                # low four bits of the stored RSP value (bit provenance)
+                xb = A.bitvec(t[2], A.Path())
+                if truth_eq and xb[:4] == rbits and all(b_ == 0 for b_ in xb[4:]) and all(b_ is not None for b_ in rbits):
+                    aligned = True
+                # the same value term under a mod-16 operator (when its bits are not individually known)
                 x = t[2]
-                if x[0] == "bin" and x[1] == "BitAnd" and A.is_int(x[3]) and x[3][1] == 0xF and U.strip(x[2]) == U.strip(rsp[0][3]):
+                if truth_eq and x[0] == "bin" and A.is_int(x[3]) and ((x[1] == "BitAnd" and x[3][1] == 0xF) or (x[1] == "Rem" and x[3][1] == 16)) \
+                        and U.strip(x[2]) == U.strip(rsp[0][3]):
                     aligned = True
         if not aligned:
             bv = A.bitvec(rsp[0][3], A.Path())
